@@ -403,7 +403,20 @@ func c01Instance(name string, e *expr, text string, pre string, extraDecl string
 	b.WriteString("\tif err != nil {\n\t\t_, has := res[\"r\"]\n\t\tvnd.Assert(!has, \"a failing rule yields no value\")\n\t\treturn\n\t}\n")
 	switch cls {
 	case 'M':
-		fmt.Fprintf(&b, "\tgot, ok := bits64(res[\"r\"])\n\tvnd.Assert(ok, \"integer result\")\n\tvnd.Assert(got == uint64(%s), \"value (64-bit pattern)\")\n", ref)
+		cond := "true"
+		top := e
+		for top.op == "()" {
+			top = top.l
+		}
+		if top.op == "/" {
+			// signed and unsigned reading of the unsigned operand agree below 2^63 only
+			if top.l.class == 'U' {
+				cond = "(" + top.l.goRef(new([]string)) + " < 1<<63)"
+			} else {
+				cond = "(" + top.r.goRef(new([]string)) + " < 1<<63)"
+			}
+		}
+		fmt.Fprintf(&b, "\tgot, ok := bits64(res[\"r\"])\n\tvnd.Assert(ok, \"integer result\")\n\tvnd.Assert(vnd.Implies(%s, got == uint64(%s)), \"value (64-bit pattern)\")\n", cond, ref)
 	case 'F':
 		fmt.Fprintf(&b, "\tgot, ok := res[\"r\"].(float64)\n\tvnd.Assert(ok, \"result type float64\")\n\tvnd.Assert(feq(got, %s), \"value\")\n", ref)
 	default:
@@ -623,6 +636,13 @@ func genC01(tier string, seed int64) (*Family, error) {
 		text := l.e.text()
 		add(name, "literals", text, c01Instance(name, l.e, text, "", "", false))
 		fam.Instances[len(fam.Instances)-1].Text = text
+	}
+	// concrete strings with characters that formatting or quoting could mangle
+	for k, pair := range [][2]string{{"100%", " done"}, {"50%", "%"}, {"%d", "%s"}, {"a\\b", "c"}, {"é", "ü"}, {"", "x"}, {"%%", ""}} {
+		name := fmt.Sprintf("C_strconcat_%d", k)
+		fmt.Fprintf(&b, "\nfunc %s() {\n\tdc := context.NewDataContext()\n\tdc.Add(\"s\", %q)\n\tdc.Add(\"t\", %q)\n\tcompiled, err, res := run(dc, \"rule \\\"r\\\" begin\\n return s + t\\nend\")\n\tvnd.Assert(compiled, \"compiles\")\n\tvnd.Reach(\"executed\")\n\tvnd.Assert(err == nil, \"no error\")\n\tgot, ok := res[\"r\"].(string)\n\tvnd.Assert(ok && got == %q, \"+ concatenates strings verbatim\")\n\tcompiled, err, res = run(dc, \"rule \\\"r\\\" begin\\n return s + t == %s\\nend\")\n\tb2, ok2 := res[\"r\"].(bool)\n\tvnd.Assert(compiled && err == nil && ok2 && b2, \"comparison with the literal concatenation\")\n}\n",
+			name, pair[0], pair[1], pair[0]+pair[1], strings.ReplaceAll(fmt.Sprintf("%q", pair[0]+pair[1]), "\"", "\\\""))
+		fam.Instances = append(fam.Instances, Instance{Func: name, Stratum: "literals", Desc: fmt.Sprintf("%q + %q", pair[0], pair[1]), Expect: []string{"executed"}})
 	}
 	// rule locals as operands
 	{
